@@ -681,3 +681,191 @@ def oracle_c14(rep, scn, replay, obs, root, report, model_obs=None):
                 got = [[k, p] for k, p in ops]
                 if want != got:
                     report("create-op-sequence", i, want, got, "the sequence of file-system writes differs from the model's (order: child manifest, child chain, parent manifest, parent chain; mkdir only for new ascmhl folders)")
+
+
+# ------------------------------------------------------------------------------------------------ C17
+
+
+def oracle_c17(rep, scn, replay, obs, root, report):
+    """scenario carries scn['renames']: list of rounds, each {'step': index of the create that follows, 'dr': bool, 'map': {old: new}}"""
+    for rnd in scn.get("rounds", []):
+        i = rnd["create"]
+        o = obs[i]
+        ren = rnd["map"]
+        if rnd["dr"]:
+            _count(rep, f"c17.dr.renames{len(ren)}")
+            if o["outcome"] != ["exit", 0]:
+                report("dr-create-fails", i, ["exit", 0], o["outcome"], f"create -dr after renaming {ren} does not exit 0: {o['output'][-300:]}")
+                continue
+            if o["missing"]:
+                report("dr-reports-missing", i, [], o["missing"], "create -dr reports renamed files as missing")
+            recs = {r["path"]: r for g in o["written"] if g["hist"] == "" for r in g["records"]}
+            for old, new in ren.items():
+                r = recs.get(new)
+                if r is None:
+                    report("dr-no-record", i, new, sorted(recs), f"renamed file {new} has no record in the new generation")
+                elif r["prev"] != old:
+                    report("dr-previous-path", i, old, r["prev"], f"{new} is recorded with previous path {r['prev']!r}, expected {old!r}")
+            for p, r in recs.items():
+                if r["prev"] is not None and p not in ren.values():
+                    report("dr-spurious-previous-path", i, None, [p, r["prev"]], "a file that was not renamed carries a previous path")
+            for j in rnd.get("accept", []):
+                oj = obs[j]
+                _count(rep, "c17.accept." + scn["steps"][j]["op"])
+                if oj["outcome"] != ["exit", 0] or oj["missing"]:
+                    report("renamed-tree-not-accepted:" + scn["steps"][j]["op"], j, ["exit", 0], [oj["outcome"], oj["missing"]],
+                           f"{scn['steps'][j]['op']} does not accept the tree after the renames were recorded with -dr")
+            j = rnd.get("altered_verify")
+            if j is not None:
+                oj = obs[j]
+                _count(rep, "c17.altered")
+                if oj["outcome"] != ["exit", 11] or rnd["altered"] not in oj["mismatch"]:
+                    report("altered-renamed-file-not-detected", j, ["exit", 11, rnd["altered"]], [oj["outcome"], oj["mismatch"]], "verify does not fail on a renamed file whose content was changed")
+        else:
+            _count(rep, f"c17.nodr.renames{len(ren)}")
+            for j in rnd.get("reject", []):
+                oj, op = obs[j], scn["steps"][j]["op"]
+                want = {"verify": 21, "diff": 10, "create": 10}[op]
+                if oj["outcome"] != ["exit", want]:
+                    report("without-dr-exit:" + op, j, ["exit", want], oj["outcome"], f"without -dr, {op} on a tree with renamed files must exit {want}")
+                if not set(ren) <= set(oj["missing"]):
+                    report("without-dr-missing-not-named:" + op, j, sorted(ren), oj["missing"], "the old paths are not reported as missing")
+                if op in ("verify", "diff") and not set(ren.values()) <= set(oj["new"]):
+                    report("without-dr-new-not-named:" + op, j, sorted(ren.values()), oj["new"], "the new paths are not reported as new files")
+
+
+# ------------------------------------------------------------------------------------------------ C18
+
+
+def oracle_c18(rep, scn, replay, obs, root, report):
+    for i, (st, o) in enumerate(zip(scn["steps"], obs)):
+        if st["op"] == "flatten":
+            if o["outcome"] != ["exit", 0]:
+                report("flatten-fails", i, ["exit", 0], o["outcome"], "flatten of a flat history does not exit 0: " + o["output"][-200:])
+                continue
+            gens = replay.hists[i].get("", [])
+            flats = o.get("flat") or []
+            if len(flats) != 1:
+                report("flatten-manifest-count", i, 1, [f["file"] for f in flats], "flatten did not write exactly one manifest")
+                continue
+            fl = flats[0]
+            if fl["process"] != "flatten":
+                report("flatten-process-type", i, "flatten", fl["process"], "packing list process type")
+            want = {}
+            for g in gens:
+                for r in g["records"]:
+                    if r["dir"]:
+                        continue
+                    d = want.setdefault(r["path"], {})
+                    for f, dig, act, _ in r["entries"]:
+                        if act != "failed" and f not in d:
+                            d[f] = dig
+            got = {}
+            for r in fl["records"]:
+                if r["dir"]:
+                    report("flatten-directory-record", i, "no directory records", r["path"], "packing list contains a directory record")
+                    continue
+                if r["path"] in got:
+                    report("flatten-duplicate-path", i, "one record per path", r["path"], "packing list records a path twice")
+                d = got.setdefault(r["path"], {})
+                for f, dig, act in r["entries"]:
+                    if f in d:
+                        report("flatten-duplicate-format", i, "one digest per format", [r["path"], f], "packing list holds a format twice for one path")
+                    d[f] = dig
+            _count(rep, f"c18.flatten.gens{len(gens)}")
+            want = {p: d for p, d in want.items()}
+            if got != want:
+                dp = sorted(p for p in set(got) | set(want) if got.get(p) != want.get(p))
+                report("flatten-content", i, {p: want.get(p) for p in dp[:5]}, {p: got.get(p) for p in dp[:5]},
+                       "packing list is not: one record per file path ever recorded, per format the earliest digest that did not fail")
+            if o.get("_fs_changed"):
+                report("flatten-modified-source", i, [], o["_fs_changed"][:10], "flatten modified the source folder")
+        if st["op"] == "verifypl" and "expect" in st:
+            _count(rep, "c18.verifypl." + ("ok" if st["expect"] == 0 else "altered"))
+            if st["expect"] == 0 and o["outcome"] != ["exit", 0]:
+                report("verify-pl-false-alarm", i, ["exit", 0], o["outcome"], "verify -pl of the unchanged tree against the packing list does not exit 0: " + o["output"][-300:])
+            if st["expect"] != 0 and (o["outcome"][0] != "exit" or o["outcome"][1] == 0):
+                report("verify-pl-misses-change", i, "non-zero exit", o["outcome"], "verify -pl accepts an altered tree")
+
+
+# ------------------------------------------------------------------------------------------------ C19
+
+INFO_GEN = __import__("re").compile(r"^  Generation (\d+) \((.*?)\)")
+
+
+def oracle_c19(rep, scn, replay, obs, root, report):
+    import xml.etree.ElementTree as ET
+
+    for i, (st, o) in enumerate(zip(scn["steps"], obs)):
+        if st["op"] == "info":
+            croot = st.get("root", "") or ""
+            hists = _gens_below(replay.hists[i], croot)
+            if not hists.get(""):
+                if o["outcome"] != ["exit", 30]:
+                    report("info-no-history-code", i, ["exit", 30], o["outcome"], "info on a folder without history must exit 30")
+                continue
+            if o["outcome"] != ["exit", 0]:
+                report("info-fails", i, ["exit", 0], o["outcome"], "info fails on an intact history")
+                continue
+            per, order, cur = {}, [], None
+            for x in o.get("info") or []:
+                if x[0] == "H":
+                    cur = x[1]                       # parse_info already made it relative to the command's root
+                    order.append(cur)
+                    per.setdefault(cur, [])
+                elif x[0] == "G" and cur is not None:
+                    per[cur].append(x[1])
+            _count(rep, f"c19.info.histories{len(hists)}")
+            if sorted(order) != sorted(hists):
+                report("info-histories", i, sorted(hists), order, "info does not list exactly the histories below the folder, each once")
+            for h, gens in hists.items():
+                want = [g["no"] for g in gens]
+                if per.get(h) != want:
+                    report("info-generations", i, want, per.get(h), f"info does not list exactly the generations of {h or '.'} in ascending order")
+            # creation dates: every 'Generation n (date)' line carries the manifest's <creationdate>
+            dates = {}
+            for hroot_abs, fname, man in [(os.path.join(root, croot, h), f, None) for h in hists for _, f in impl.list_manifests(os.path.join(root, croot, h))]:
+                try:
+                    cd = ET.parse(os.path.join(hroot_abs, "ascmhl", fname)).getroot().find(impl.NS + "creatorinfo").find(impl.NS + "creationdate").text
+                except Exception:  # noqa
+                    cd = None
+                dates.setdefault(cd, 0)
+                dates[cd] += 1
+            for ln in o["output"].split("\n"):
+                m = INFO_GEN.match(ln)
+                if m and ":" not in ln[m.end():]:
+                    if m.group(2) not in dates:
+                        report("info-creation-date", i, sorted(x for x in dates if x)[:5], m.group(2), "info prints a creation date no manifest carries")
+        if st["op"] == "infosf":
+            if o["outcome"][0] == "abort":
+                report("infosf-aborts", i, "an exit code", o["outcome"], "info -sf aborted")
+                continue
+            f = st["file"]
+            if st.get("root") is not None:
+                hroot = st["root"] or ""
+                if not (replay.hists[i].get(hroot)):
+                    continue
+                # the statement's form: root = the nearest history's root; an outer root is not claimed
+                nearest = max((h for h in replay.hists[i] if (h == "" or f.startswith(h + "/"))), key=len, default=None)
+                if nearest != hroot:
+                    continue
+            else:
+                cands = [h for h in replay.hists[i] if replay.hists[i][h] and (h == "" or f.startswith(h + "/"))]
+                if not cands:
+                    if o["outcome"] != ["exit", 30]:
+                        report("infosf-no-history-code", i, ["exit", 30], o["outcome"], "info -sf without any enclosing history must exit 30")
+                    continue
+                hroot = max(cands, key=len)
+            rel = f[len(hroot):].lstrip("/") if hroot else f
+            want = []
+            for g in replay.hists[i][hroot]:
+                for r in g["records"]:
+                    if r["path"] == rel or r.get("prev") == rel:
+                        for e in r["entries"]:
+                            want.append([g["no"], e[0], e[1], e[2]])
+            got = [x[1:] for x in (o.get("info") or []) if x[0] == "E"]
+            _count(rep, "c19.infosf." + ("nested" if hroot else "root") + (".sub" if "/" in rel else ""))
+            if o["outcome"] != ["exit", 0]:
+                report("infosf-fails", i, ["exit", 0], o["outcome"], "info -sf fails for a file with an enclosing history")
+            elif got != want:
+                report("infosf-lines", i, want, got, f"info -sf {f} does not print exactly one line per recorded digest (generation, format, digest, action) of history {hroot or '.'}")
